@@ -5,6 +5,7 @@ the group part of C13 (start at the committed offset)."""
 from __future__ import annotations
 
 import asyncio
+import os
 import struct
 
 from props import loggen
@@ -177,6 +178,11 @@ def gen_plan(prop, seed, index, tier="quick"):
         # the committed-offset lookup itself failing with a retriable coordinator error
         faults.append({"on": {"request": "OffsetFetch", "nth": r.randint(1, 3)},
                        "do": {"reply_error": r.choice([14, 14, 16])}})
+    if (env or faults) and base_kw["metadata_max_age_ms"] > 2000:
+        # a metadata update that fails under a fault is only repeated by the periodic refresh
+        # (e.g. the group leader learning the topics of the other members): keep that period
+        # inside the run, the liveness bound accounts for it
+        base_kw["metadata_max_age_ms"] = r.choice([500, 2000])
     # logs
     logs = []
     for t, d in sorted(topics.items()):
@@ -263,9 +269,12 @@ def parse_subscription(b):
 
 
 def group_bound(kw):
-    return 3 * (kw["session_timeout_ms"] / 1000 + kw["rebalance_timeout_ms"] / 1000
-                + 2 * kw["heartbeat_interval_ms"] / 1000 + 2 * kw["request_timeout_ms"] / 1000
-                + 10 * kw["retry_backoff_ms"] / 1000) + 1.0
+    b = 3 * (kw["session_timeout_ms"] / 1000 + kw["rebalance_timeout_ms"] / 1000
+             + 2 * kw["heartbeat_interval_ms"] / 1000 + 2 * kw["request_timeout_ms"] / 1000
+             + 10 * kw["retry_backoff_ms"] / 1000) + 1.0
+    if kw.get("metadata_max_age_ms", 10**9) <= 2000:
+        b += 2 * kw["metadata_max_age_ms"] / 1000  # a failed metadata update waits for the next refresh
+    return b
 
 
 class MemberObs:
@@ -467,12 +476,33 @@ def execute(plan):
                     await consumer.commit()
             except Errors.ConsumerStoppedError:
                 break
+            except asyncio.CancelledError:
+                # nobody cancels the application's task in this harness: the library let a
+                # CancelledError of one of its own futures escape from getone()/getmany()
+                m.errors.append(("CancelledError", "escaped from the consumer API", world.log.seq))
+                world.probe("cancelled_error_escaped_from_consumer_api")
+                if not (m.stop_flag or m.state == "killed"):
+                    world.violation(prop if prop in ("C04", "C05", "C06") else "C06",
+                                    "consumer_api_raised_cancelled_error_nobody_requested",
+                                    {"member": m.cid, "t": world.now() - world.t0,
+                                     "faults": dict(world.fault_counts)})
+                if os.environ.get("GROUP_DEBUG_STACKS") == m.cid:
+                    import traceback
+                    traceback.print_exc()
+                if m.stop_flag or m.state == "killed":
+                    raise
+                await asyncio.sleep(0.01)
             except Errors.KafkaError as exc:
                 # a raised error has to be consumed for coordination to continue
                 m.errors.append((type(exc).__name__, repr(exc)[:200], world.log.seq))
+                if os.environ.get("GROUP_DEBUG_STACKS") == m.cid:
+                    import traceback
+                    traceback.print_exc()
                 if isinstance(exc, (Errors.NoOffsetForPartitionError, Errors.OffsetOutOfRangeError)):
                     _seek_after_none(m, exc)
                 await asyncio.sleep(0.01)
+        if os.environ.get("GROUP_DEBUG_STACKS") == m.cid:
+            print("POLLER-LOOP-ENDED", m.cid, world.now() - world.t0, m.stop_flag)
         m.state = "stopping"
         env_log.append((world.log.seq, world.now(), "stop_begin", m.cid))
         try:
@@ -628,6 +658,28 @@ def execute(plan):
         await asyncio.sleep(0.05)
 
     def snapshot_liveness():
+        for m_ in members.values():
+            # an exception that is not a KafkaError ended the application's poll loop
+            if m_.task is not None and m_.task.done() and not m_.task.cancelled() \
+                    and m_.state not in ("killed", "stopped", "stopping") and m_.task.exception() is not None:
+                m_.errors.append(("poller_died", repr(m_.task.exception())[:300], world.log.seq))
+                m_.state = "poller_died"
+        if os.environ.get("GROUP_DEBUG_STACKS"):
+            for m_ in members.values():
+                t = m_.task
+                print("MEMBER-TASK", m_.cid, m_.state, t.done() if t else None,
+                      t.get_context().get(L.OWNER, "sim") if t else None,
+                      [f"{f.f_code.co_filename.rsplit('/', 1)[-1]}:{f.f_lineno}" for f in (t.get_stack(limit=3) if t and not t.done() else [])])
+            for t in world.loop.all_tasks_created:
+                if not t.done() and t.get_context().get(L.OWNER, "sim") == os.environ["GROUP_DEBUG_STACKS"]:
+                    fr, coro = [], t.get_coro()
+                    while coro is not None and len(fr) < 10:
+                        f = getattr(coro, "cr_frame", None) or getattr(coro, "gi_frame", None)
+                        if f is None:
+                            break
+                        fr.append(f"{f.f_code.co_filename.rsplit('/', 1)[-1]}:{f.f_lineno}")
+                        coro = getattr(coro, "cr_await", None) or getattr(coro, "gi_yieldfrom", None)
+                    print("LIVE-TASK", t.get_name(), fr)
         g = groups.groups.get(GROUP)
         live = [m for m in members.values() if m.state == "running"]
         snap = {"t": world.now(), "generation": g.generation if g else None,
